@@ -32,19 +32,20 @@ const (
 )
 
 type cbReq struct {
-	id        int
-	task      *simrt.Task
-	rec       *simkit.Recorder
-	invokeSeq uint64
-	outcome   string // "handler", "fallback" or "" (not decided yet)
-	decSeq    uint64 // seq of the critical section that decided the request
-	relSeq    uint64 // seq at which that critical section ended
-	enterSeq  uint64
-	exitSeq   uint64
-	status    int
-	done      bool
-	doneSeq   uint64
-	evalSeq   uint64 // seq of the last lock acquisition of the task when it ended (its checkAndSet, if any)
+	id            int
+	task          *simrt.Task
+	rec           *simkit.Recorder
+	invokeSeq     uint64
+	outcome       string // "handler", "fallback" or "" (not decided yet)
+	decSeq        uint64 // seq of the critical section that decided the request
+	relSeq        uint64 // seq at which that critical section ended
+	enterSeq      uint64
+	exitSeq       uint64
+	status        int
+	done          bool
+	doneSeq       uint64
+	fallbackBroke bool   // the fallback handler panicked while answering this request
+	evalSeq       uint64 // seq of the last lock acquisition of the task when it ended (its checkAndSet, if any)
 }
 
 type cbConfig struct {
@@ -69,6 +70,8 @@ func (c *countingEffect) Exec() error { c.n++; return nil }
 
 // cbWorld is one breaker under simulation together with everything observed.
 type cbWorld struct {
+	fallbackBreaks   func() bool // draws whether the caller's fallback handler panics this time
+	afterFallback    string
 	logLeft          int
 	logPanicTask     *simrt.Task
 	logPanicSeq      uint64
@@ -103,6 +106,9 @@ func newWorld(r *simkit.Run, cfg cbConfig) *cbWorld {
 	w.start = clock.Now().UTC()
 	handler := http.HandlerFunc(func(rw http.ResponseWriter, req *http.Request) {
 		q := req.Context().Value(ctxKey{}).(*cbReq)
+		if q.outcome == "fallback" {
+			w.afterFallback = fmt.Sprintf("request %d was answered by the fallback (broken=%v) and then handed to the protected handler as well", q.id, q.fallbackBroke)
+		}
 		q.outcome = "handler"
 		q.decSeq = q.task.LastAcq
 		q.relSeq = q.task.LastRel
@@ -149,6 +155,13 @@ func newWorld(r *simkit.Run, cfg cbConfig) *cbWorld {
 		if q.decSeq <= q.invokeSeq {
 			q.decSeq = w.sim.Seq
 			q.relSeq = w.sim.Seq
+		}
+		if w.fallbackBreaks != nil && w.fallbackBreaks() {
+			// the caller's fallback handler is itself broken this time: the request is lost to its client, and the
+			// breaker's decision about it stands - it must not be handed to the protected handler instead
+			q.fallbackBroke = true
+			w.r.Fault("fallback-handler-panic")
+			panic("simulated: the fallback handler is broken")
 		}
 		if realFallback != nil {
 			realFallback.ServeHTTP(rw, req)
@@ -292,7 +305,10 @@ func (w *cbWorld) check() {
 		w.r.Fail("deadlock", "no task can run but %d wait for a lock", len(w.sim.Blocked()))
 	}
 	for _, t := range w.sim.Tasks() {
-		if t.Panic != nil && t != w.logPanicTask {
+		if w.afterFallback != "" {
+			w.r.Fail("shield", "%s", w.afterFallback)
+		}
+		if t.Panic != nil && t != w.logPanicTask && !w.brokeFallback(t) {
 			w.r.Fail("panic", "task %s panicked: %v\n%s", t.Name, t.Panic, t.PanicSite)
 		}
 	}
@@ -675,4 +691,13 @@ func (w *cbWorld) pokeNeighbour(status int) {
 	w.otherPokes++
 	req := &http.Request{Method: "GET", URL: &url.URL{Scheme: "http", Host: "other", Path: "/"}, Header: http.Header{}, Host: "other", RemoteAddr: "10.0.0.2:1"}
 	w.other.ServeHTTP(simkit.NewRecorder(), req)
+}
+
+func (w *cbWorld) brokeFallback(t *simrt.Task) bool {
+	for _, q := range w.reqs {
+		if q.task == t {
+			return q.fallbackBroke
+		}
+	}
+	return false
 }
